@@ -204,6 +204,10 @@ class Evaluator:
         p = norm_path(n["path"])
         v = self.F.const(p)
         i = T.ty_info(n["ty"])
+        m = re.match(r"^core::num::<impl ([iu](?:8|16|32|64|128|size))>::(MAX|MIN|BITS)$", p)
+        if v is None and m:
+            w, sg = T.ty_info(m.group(1))
+            v = {"MAX": (1 << (w - 1)) - 1 if sg else (1 << w) - 1, "MIN": -(1 << (w - 1)) if sg else 0, "BITS": w}[m.group(2)]
         if isinstance(v, bool):
             v = int(v)
         if i and isinstance(v, int):
